@@ -4,6 +4,7 @@ From SV Require Import Lib.Str Gen.Tables Model.Types Model.Api Model.Back Model
      Proofs.BackProofs Proofs.FrontSmallProofs Proofs.DiscoverProofs.
 
 (* the marker table covers every key the generator raises: _create_todo_msg cannot fail with KeyError *)
+From SV Require Import Spec.Markers Proofs.TotalProofs.
 Theorem C01_todo_flush_total : forall indent s,
   Forall (fun k => In k raisable_keys) (g_todos s) -> exists x s', create_todo_msg indent s = Ok (x, s').
 Proof. exact create_todo_msg_total. Qed.
@@ -18,6 +19,21 @@ Proof.
   intros tr files. unfold get_api_files. destruct (discover tr files) as [w p]. cbn. destruct w; split; intro H; try reflexivity; discriminate.
 Qed.
 
+(* GENERATOR SIDE: a type whose rendered positions hold only kinds the analyzer produces (renderable: no EnumType/BoundaryType -
+   nothing in the tool constructs them - and class references with a name and a qualified name) is rendered to completion
+   from every generator state: _create_type_string raises nothing *)
+Theorem C01_type_string_total : forall classes rmap nc t, renderable t = true ->
+  forall s, exists x s', type_string classes rmap nc t s = Ok (x, s').
+Proof. exact type_string_total. Qed.
+(* a whole function or method whose parameter, type-variable-bound and result types are renderable is rendered to completion
+   whenever the pending markers are markers the tool knows (true at every point of a run: known is an invariant, the empty
+   pending set in particular): no parameter list, result list, marker flush or import registration raises *)
+Theorem C01_function_string_total : forall classes rmap nc f indent is_method rx s,
+  func_renderable is_method f = true -> known s ->
+  exists x s', function_string classes rmap nc f indent is_method rx s = Ok (x, s').
+Proof. exact function_string_total. Qed.
 Print Assumptions C01_todo_flush_total.
 Print Assumptions C01_argument_kind_total.
 Print Assumptions C01_no_files_iff.
+Print Assumptions C01_type_string_total.
+Print Assumptions C01_function_string_total.
